@@ -216,6 +216,7 @@ class Contracts:
         self.defines = {}    # name -> (params, ast)
         self.funcs = {}      # (pkg, key) -> FuncContract
         self.globalinv = {}  # pkg -> [(label, ast, text)]
+        self.lemmas = {}     # name -> dict(params=[(name, type)], ast, text, pkg)
         self.texts = {}      # path -> text (for hashing / evidence)
 
 
@@ -280,6 +281,17 @@ def parse_file(path, pkg, C):
                 ps = [p.strip() for p in m.group(2).split(",") if p.strip()]
                 C.defines[m.group(1)] = (ps, parse_expr(m.group(3)))
                 fc = None
+            elif kw == "lemma" and fc is None or kw == "lemmadef":
+                m = re.match(r"^([A-Za-z_0-9]+)\s*\(([^)]*)\)\s*:\s*(.*)$", rest)
+                if not m:
+                    raise SyntaxError("bad lemma declaration")
+                ps = []
+                for part in m.group(2).split(","):
+                    part = part.strip()
+                    if part:
+                        nm, _, ty = part.partition(" ")
+                        ps.append((nm.strip(), ty.strip()))
+                C.lemmas[m.group(1)] = {"params": ps, "ast": parse_expr(m.group(3)), "text": m.group(3), "pkg": pkg, "line": ln}
             elif kw == "globalinv":
                 lab, e = split_label(rest)
                 C.globalinv.setdefault(pkg, []).append((lab, parse_expr(e), e))
